@@ -261,6 +261,40 @@ func c05main(c *Ctx) {
 				}
 				c.R.Add("parent_and_child_binding_one_key", 1)
 			}
+			// a line through a std log bridge built on a logfmt logger - the EMPTY line included: one record whose message is
+			// the line without its line break
+			if idx%7 == 3 {
+				line := strings.TrimRight(cs.msg, "\n")
+				if idx%14 == 3 {
+					line = ""
+				}
+				br := recCase{name: cs.name, msg: line, lvl: slog.InfoLevel, caller: slog.GetFlags()&slog.Lcaller != 0}
+				lg := newRoot(cs.name, FLogfmt, w, slog.AlwaysLevel)
+				bl := slog.NewLogLogger(lg, slog.InfoLevel)
+				var evs []mon.Event
+				panicked := ""
+				func() {
+					defer func() {
+						if e := recover(); e != nil {
+							panicked = fmt.Sprint(e)
+						}
+					}()
+					evs = capture(log, func() { bl.Print(line) })
+				}()
+				switch {
+				case panicked != "":
+					c.R.Violation(idx, "one-write", "C05/one-write/std-log-bridge", fmt.Sprintf("log.Logger.Print(%q) through a bridge on a logfmt logger panicked: %s", clip(line, 80), panicked), br.desc(FLogfmt))
+					return
+				case len(evs) != 1 || evs[0].Kind != mon.EvWrite:
+					c.R.Violation(idx, "one-write", "C05/one-write/std-log-bridge", fmt.Sprintf("log.Logger.Print(%q): expected exactly one Write, saw %s", clip(line, 80), fmtEvents(evs)), br.desc(FLogfmt))
+					return
+				}
+				if vs := c05check(evs[0].Data, br); len(vs) > 0 {
+					c.R.Violation(idx, vs[0].clause, "C05/"+vs[0].clause+"/std-log-bridge", fmt.Sprintf("log.Logger.Print(%q) through a bridge on a logfmt logger: %s\npayload: %s", clip(line, 80), vs[0].detail, q(clip(string(evs[0].Data), 600))), br.desc(FLogfmt))
+					return
+				}
+				c.R.Add("lines_through_a_std_log_bridge", 1)
+			}
 			// ONE group object used twice in one record: at the top level and again inside a sibling group that sorts after
 			// it (or before it) - an Attr is a pointer, applications pass the same one around. Every occurrence is printed.
 			if idx%5 == 2 {
